@@ -1025,13 +1025,18 @@ class NDCube(NDCubeBase):
         return self.__pow__(-1).__mul__(value)
 
     def __pow__(self, value):
-        new_data = self.data ** value
+        data = self.data
+        # numpy refuses negative integer powers of integers because the result is not an
+        # integer; the values of a cube are physical values, so compute them as floats.
+        if np.issubdtype(data.dtype, np.integer) and np.any(np.asarray(value) < 0):
+            data = data.astype(float)
+        new_data = data ** value
         new_unit = self.unit if self.unit is None else self.unit ** value
         new_uncertainty = self.uncertainty
 
         if self.uncertainty is not None:
             try:
-                new_uncertainty = new_uncertainty.propagate(np.power, self, self.data ** value, correlation=1)
+                new_uncertainty = new_uncertainty.propagate(np.power, self, new_data, correlation=1)
             except ValueError as e:
                 if "unsupported operation" in e.args[0]:
                     new_uncertainty = None
